@@ -31,6 +31,8 @@ struct Node {
     kinds: Vec<u32>,
     started: Vec<bool>,
     npolls: Vec<u32>,
+    dhcp_server: bool,
+    dhcp_profile: u64,
     handles: Vec<smoltcp::iface::SocketHandle>,
 }
 
@@ -45,7 +47,7 @@ fn mk_node(slaac: bool, seed: u64) -> Node {
         a.push(IpCidr::new(IpAddress::Ipv6(own_ll()), 64)).unwrap();
     });
     let storage: Vec<SocketStorage<'static>> = Vec::new();
-    Node { iface, dev, sockets: SocketSet::new(storage), kinds: vec![], started: vec![], npolls: vec![], handles: vec![] }
+    Node { iface, dev, sockets: SocketSet::new(storage), kinds: vec![], started: vec![], npolls: vec![], dhcp_server: seed % 3 != 0, dhcp_profile: seed / 3, handles: vec![] }
 }
 
 fn add_sock(n: &mut Node, kind: u32, idx: usize) {
@@ -159,6 +161,65 @@ fn tcp_frame(sport: u16, dport: u16, seq: u32, ack: Option<u32>, syn: bool) -> V
 }
 
 /// the scripted peer completes handshakes: a SYN-ACK from port 8000+i gets its ACK (delivered at the next poll)
+/// scripted DHCP server 10.0.0.2: OFFER for DISCOVER, ACK for REQUEST; lease / T1 / T2 shapes vary with
+/// the node's `dhcp_profile` (both timers, none, only T2 below lease/2, only T1, tiny lease)
+fn dhcp_react(n: &mut Node, udp_payload: &[u8]) {
+    let Ok(pk) = DhcpPacket::new_checked(udp_payload) else { return };
+    let Ok(req) = DhcpRepr::parse(&pk) else { return };
+    let mt = match req.message_type {
+        DhcpMessageType::Discover => DhcpMessageType::Offer,
+        DhcpMessageType::Request => DhcpMessageType::Ack,
+        _ => return,
+    };
+    let (lease, t1, t2): (u32, Option<u32>, Option<u32>) = match n.dhcp_profile % 6 {
+        0 => (60, None, None),
+        1 => (60, Some(20), Some(40)),
+        2 => (100, None, Some(20)),
+        3 => (100, Some(30), None),
+        4 => (6, None, None),
+        _ => (40, Some(30), Some(10)),
+    };
+    let srv = Ipv4Address::new(10, 0, 0, 2);
+    let d = DhcpRepr {
+        message_type: mt,
+        transaction_id: req.transaction_id,
+        secs: 0,
+        client_hardware_address: EthernetAddress(OWN_MAC),
+        client_ip: Ipv4Address::UNSPECIFIED,
+        your_ip: Ipv4Address::new(10, 0, 0, 77),
+        server_ip: srv,
+        router: Some(srv),
+        subnet_mask: Some(Ipv4Address::new(255, 255, 255, 0)),
+        relay_agent_ip: Ipv4Address::UNSPECIFIED,
+        broadcast: false,
+        requested_ip: None,
+        client_identifier: None,
+        server_identifier: Some(srv),
+        parameter_request_list: None,
+        dns_servers: None,
+        max_size: None,
+        lease_duration: Some(lease),
+        renew_duration: t1,
+        rebind_duration: t2,
+        additional_options: &[],
+    };
+    let mut pl = vec![0u8; d.buffer_len()];
+    if d.emit(&mut DhcpPacket::new_unchecked(&mut pl[..])).is_err() {
+        return;
+    }
+    let udp = UdpRepr { src_port: 67, dst_port: 68 };
+    let dst = Ipv4Address::BROADCAST;
+    let ip = Ipv4Repr { src_addr: srv, dst_addr: dst, next_header: IpProtocol::Udp, payload_len: 8 + pl.len(), hop_limit: 64 };
+    let eth = EthernetRepr { src_addr: EthernetAddress(PEER_MAC), dst_addr: EthernetAddress::BROADCAST, ethertype: EthernetProtocol::Ipv4 };
+    let mut buf = vec![0u8; 14 + 20 + 8 + pl.len()];
+    let mut f = EthernetFrame::new_unchecked(&mut buf[..]);
+    eth.emit(&mut f);
+    let mut p = Ipv4Packet::new_unchecked(f.payload_mut());
+    ip.emit(&mut p, &Default::default());
+    udp.emit(&mut UdpPacket::new_unchecked(p.payload_mut()), &IpAddress::Ipv4(srv), &IpAddress::Ipv4(dst), pl.len(), |b| b.copy_from_slice(&pl), &Default::default());
+    n.dev.rx.push_back(buf);
+}
+
 fn peer_react(n: &mut Node, frames: &[Vec<u8>]) {
     for f in frames {
         let Ok(e) = EthernetFrame::new_checked(&f[..]) else { continue };
@@ -166,6 +227,15 @@ fn peer_react(n: &mut Node, frames: &[Vec<u8>]) {
             continue;
         }
         let Ok(p) = Ipv4Packet::new_checked(e.payload()) else { continue };
+        if p.next_header() == IpProtocol::Udp && n.dhcp_server {
+            if let Ok(u) = UdpPacket::new_checked(p.payload()) {
+                if u.dst_port() == 67 {
+                    let pl = u.payload().to_vec();
+                    dhcp_react(n, &pl);
+                }
+            }
+            continue;
+        }
         if p.next_header() != IpProtocol::Tcp {
             continue;
         }
@@ -426,8 +496,16 @@ fn gen_case(rng: &mut Rng, id: String) -> Case {
         _ => 3,
     };
     let mut ops = vec![];
+    let mut have_dhcp = false;
     for _ in 0..nsock {
-        ops.push(format!("sock {}", rng.below(5)));
+        // at most one DHCP client per interface: two clients share the interface's hardware address and the
+        // server's broadcasts, so their schedules are not independent (the differential needs independence)
+        let mut k = rng.below(5);
+        if k == 3 && have_dhcp {
+            k = 0;
+        }
+        have_dhcp |= k == 3;
+        ops.push(format!("sock {}", k));
     }
     let mut t: i64 = rng.range(0, 50);
     let n = rng.range(4, 22);
@@ -517,6 +595,11 @@ fn probe_case(c: &Case, fails: &mut Vec<String>, stats: &mut std::collections::B
                     return;
                 }
             }
+        }
+        // frames produced by the scripted peers in reaction to this poll are arrivals: poll again right away
+        if !n.dev.rx.is_empty() {
+            now_us += 1;
+            continue;
         }
         // next wake-up: min(poll_at, next scripted arrival)
         let next_script = if si < script.len() { Some(script[si].ms * 1000) } else { None };
